@@ -13,3 +13,71 @@ macro_rules! lib_only {
         }
     };
 }
+
+fn st_of(k: u8) -> Status {
+    match k {
+        0 => Status::PASS,
+        1 => Status::FAIL,
+        _ => Status::SKIP,
+    }
+}
+
+fn expect_shape(n: usize) {
+    let mut recs: Vec<Option<RecordType<'static>>> = Vec::with_capacity(3);
+    let mut codes = [0u8; 3];
+    let mut i = 0;
+    while i < n {
+        let k: u8 = kani::any();
+        kani::assume(k <= 2);
+        codes[i] = k;
+        recs.push(Some(RecordType::RuleCheck(NamedStatus { name: "r", status: st_of(k), message: None })));
+        i += 1;
+    }
+    let e: u8 = kani::any();
+    kani::assume(e <= 2);
+    let expected = st_of(e);
+    let refs: Vec<&Option<RecordType<'static>>> = recs.iter().collect();
+    let (got, statuses) = get_status_result(expected, refs);
+    // C16: met iff some definition has the expected non-SKIP status, or all definitions are SKIP when SKIP is expected
+    let mut some_eq = false;
+    let mut all_skip = true;
+    let mut i = 0;
+    while i < 3 {
+        if i < n {
+            if codes[i] == e { some_eq = true; }
+            if codes[i] != 2 { all_skip = false; }
+        }
+        i += 1;
+    }
+    let met = if e == 2 { all_skip } else { some_eq };
+    match got {
+        Some(s) => {
+            kani::assert(met, "an expectation is reported as met only if it is met");
+            kani::assert(s == expected, "the matched status is the expected status");
+        }
+        None => {
+            kani::assert(!met, "a met expectation is reported as met");
+            kani::assert(statuses.len() == n, "on a mismatch every evaluated status is reported");
+            let mut i = 0;
+            while i < 3 {
+                if i < n {
+                    kani::assert(statuses[i] == st_of(codes[i]), "evaluated statuses are reported in definition order");
+                }
+                i += 1;
+            }
+        }
+    }
+    std::mem::forget(statuses);
+    std::mem::forget(recs);
+}
+
+/// C16 kernel: all vectors of <= 3 rule definitions x all expected statuses
+#[cfg_attr(kani, kani::proof)]
+#[cfg_attr(verif_replay, test)]
+fn k_expect() {
+    lib_only!();
+    expect_shape(0);
+    expect_shape(1);
+    expect_shape(2);
+    expect_shape(3);
+}
